@@ -359,26 +359,24 @@ def suite_difflib(chk, model):
 
 
 def locales_of_table():
-    from compare_locales import plurals
-    return list(plurals.CATEGORIES_BY_LOCALE)
+    from harness import plural_snapshot
+    return plural_snapshot.locales()
 
 
 EXTRA_LOCALES = [None, "xx", "en-US", "zh-XX", "sr-Latn-RS", "pt-BR", "-", "", "de-", "ZH-cn"]
 
 
 def nforms(locale):
-    """data of plurals.py (tables only), for the oracle"""
-    from compare_locales import plurals
-    if locale is None:
-        return None
-    idx = plurals.CATEGORIES_BY_LOCALE.get(locale)
-    if idx is None:
-        idx = plurals.CATEGORIES_BY_LOCALE.get(locale.partition("-")[0])
-    return None if idx is None else len(plurals.CATEGORIES_BY_INDEX[idx])
+    """the locale's plural-form count from the PINNED plural data (harness/plural_snapshot.py), not from the tree"""
+    from harness import plural_snapshot
+    c = plural_snapshot.categories(locale)
+    return None if c is None else len(c)
 
 
 def suite_plural_table(chk, model):
     from compare_locales import plurals
+    from harness import plural_snapshot
+    plural_snapshot.check_table(chk)
     locs = locales_of_table()
     cases = locs + EXTRA_LOCALES + [l + "-XX" for l in locs] + [l[:1] for l in locs[:20]]
     impl = []
